@@ -975,9 +975,8 @@ def strategy_image(tier):
         'version': st.sampled_from([2, 3]),
         'as_dict': st.booleans(),
         'mode': st.sampled_from(['reexport', 'mixed', 'two_pools']),
-        'entries': st.one_of(st.lists(entry, max_size=1),
-                             st.lists(entry, min_size=2, max_size=5, unique_by=lambda e: crc_of(e['filename'])),
-                             st.lists(entry, min_size=2, max_size=5, unique_by=lambda e: crc_of(e['filename']))),
+        # 2-5 scenes per container (0 and 1 are fixed cases): cross-scene pool collisions need company
+        'entries': st.lists(entry, min_size=2, max_size=5, unique_by=lambda e: crc_of(e['filename'])),
     })
 
 
@@ -1170,6 +1169,10 @@ def fixed_image(tier):
     """The sample scene (quantised by the binary form) in both container versions."""
     for version in (2, 3):
         yield {'file': 'sample.vcd', 'version': version}
+        yield {'version': version, 'as_dict': version == 2, 'mode': 'reexport', 'entries': []}   # the empty container
+        one = blank_scene()
+        one['events'].append(blank_event('speak'))
+        yield {'version': version, 'as_dict': version == 3, 'mode': 'mixed', 'entries': [{'filename': 'One.vcd', 'scene': one}]}
 
 
 def exec_image_any(desc, ctx):
